@@ -195,7 +195,11 @@ func execReplay(b *Build, rf *ReplayFile, race bool) *replayOutcome {
 	}
 	defer os.Remove(tmp)
 	prefix := filepath.Join(b.Scratch, fmt.Sprintf("race-replay-%d", replayCounter))
-	r := runWorker(b, race, []string{"-replay", tmp}, prefix, 120*time.Second)
+	rargs := []string{"-replay", tmp}
+	if rf.Procs > 1 {
+		rargs = append(rargs, "-procs", fmt.Sprint(rf.Procs))
+	}
+	r := runWorker(b, race, rargs, prefix, 120*time.Second)
 	o := &replayOutcome{viol: r.Viol, raceLog: r.RaceLog, exitCode: r.ExitCode}
 	for _, rep := range splitRaceReports(r.RaceLog) {
 		o.races = append(o.races, classifyRace(rep, b.Scratch))
